@@ -107,12 +107,58 @@ func runC14(c *Ctx) {
 	}
 	c.nullSentinels("C14.R2")
 
+	// end of stream surfaces only between rows: once a row has begun (the count is known and is not the trailer) an
+	// error that comes from fetching the next COPY message is not handed on as a bare io.EOF - a stream that ends
+	// inside a row is an error, not a clean end
+	var fromStream func(v ssa.Value, depth int) bool
+	fromStream = func(v ssa.Value, depth int) bool {
+		for _, root := range core.ErrRoots(v) {
+			call, ok := root.(*ssa.Call)
+			if !ok {
+				continue
+			}
+			callee := core.StaticCallee(call)
+			if callee == cr {
+				return true
+			}
+			if callee != nil && depth > 0 && c.P.InPkg(callee, "wire") && callee.Blocks != nil {
+				for _, r := range returns(callee) {
+					if ev := errOperand(r); ev != nil && fromStream(ev, depth-1) {
+						return true
+					}
+				}
+			}
+		}
+		return false
+	}
+	nMid := 0
+	for _, r := range returns(read) {
+		if !anyDominates(trailerNot, r.Block()) {
+			continue
+		}
+		ev := errOperand(r)
+		if ev == nil || !fromStream(ev, 2) {
+			continue
+		}
+		nMid++
+		cls := c.Err().Classify(ev, r.Block())
+		R.Check(cls&core.CEOF == 0, "C14.R2", "Read:no-clean-EOF-inside-row:"+retDescr(r), c.at(r), "a COPY stream that ends inside a row is reported as an error, never as a clean end of stream", "error class "+cls.String()+" at this return", "inside a row the error of fetching the next COPY message is returned unchanged (class "+cls.String()+"): CopyDone in the middle of a row surfaces as io.EOF, the handler sees a clean end and the truncated row is silently dropped")
+	}
+	R.Count("in_row_stream_error_returns", nMid)
+
 	// ---------- R3: refill inside a row (open finding)
 	loops := core.Loops(read)
 	refill := false
 	for _, l := range loops {
 		for b := range l.Body {
 			if blockHasCall(b, calleeIs(cr)) {
+				refill = true
+			}
+			// or a helper of the row reader that fetches the next message
+			if blockHasCall(b, func(ci ssa.CallInstruction) bool {
+				h := core.StaticCallee(ci)
+				return h != nil && c.P.InPkg(h, "wire") && h.Blocks != nil && len(callsIn(h, calleeIs(cr))) > 0
+			}) {
 				refill = true
 			}
 		}
